@@ -232,8 +232,8 @@ def _finish(res, rec, ctx, lp):
 def _reset_streamz():
     import streamz.sinks
     import streamz.core
-    streamz.sinks._global_sinks.clear()
-    del streamz.core._io_loops[:]
+    getattr(streamz.sinks, '_global_sinks', set()).clear()
+    del getattr(streamz.core, '_io_loops', [])[:]
     for attr in ('asynchronous',):
         if hasattr(streamz.core.thread_state, attr):
             try:
